@@ -187,7 +187,7 @@ PLAN = {
     "C11": {"level": "exploration", "engines": _both(_model("ttl"), _sweep("sweeper", 6, 3, 60, 8), _sweep("ttlcrash", 8, 8, 160, 16)), "min_nontrivial": 300,
             "assumptions": MODEL_ASSUMPTIONS + CONC_ASSUMPTIONS[:2] + ["sweeper runs use the process-wide virtual clock offset (hook H6) for jumps; bounds around calls are taken from that clock before and after each call"]},
     "C12": {"level": "exploration", "engines": _model("ts"), "min_nontrivial": 300, "assumptions": MODEL_ASSUMPTIONS},
-    "C13": {"level": "exploration", "engines": _both(_model("mem"), MEMLIMIT), "min_nontrivial": 300, "assumptions": MODEL_ASSUMPTIONS + CONC_ASSUMPTIONS},
+    "C13": {"level": "exploration", "engines": _both(_model("mem"), MEMLIMIT, _conc("lin", 6, 12, {"histories": 400}, {"histories": 8000})), "min_nontrivial": 300, "assumptions": MODEL_ASSUMPTIONS + CONC_ASSUMPTIONS},
     "C14": {"level": "exploration", "engines": _both(_model("range"), SCAN), "min_nontrivial": 300, "assumptions": MODEL_ASSUMPTIONS + CONC_ASSUMPTIONS},
     "C16": {"level": "exploration", "engines": _both(_model("cache", configs="cachepair", quick_programs=60, thorough_programs=1500), _conc("reuse", 4, 8, {"runs": 3}, {"runs": 60}), _cache), "min_nontrivial": 200, "assumptions": MODEL_ASSUMPTIONS + CONC_ASSUMPTIONS},
     "C06": {
